@@ -68,7 +68,7 @@ fn c01_calendar_years(lo: i64, hi: i64, out: &mut Out) {
             Some(nx) => {
               let nn = spec::jdn(nx.get_year() as i64, nx.get_month() as i64, nx.get_day() as i64);
               if nn != n + 1 || !spec::valid_date(nx.get_year() as i64, nx.get_month() as i64, nx.get_day() as i64) { out.fail(format!("next:{}-{}-{}", y, m, d), format!("next day is {}", nx)); }
-              if nx.subtract(sd) != 1 || sd.subtract(nx) != -1 || !sd.is_before(nx) || !nx.is_after(sd) || sd.is_after(nx) || nx.is_before(sd) || nx.next(-1) != sd { out.fail(format!("order:{}-{}-{}", y, m, d), "subtract / before / after / next(-1) disagree with the neighbour".into()); }
+              if nx.subtract(sd) != 1 || sd.subtract(nx) != -1 || !sd.is_before(nx) || !nx.is_after(sd) || sd.is_after(nx) || nx.is_before(sd) || guard(|| nx.next(-1)) != Some(sd) { out.fail(format!("order:{}-{}-{}", y, m, d), "subtract / before / after / next(-1) disagree with the neighbour".into()); }
             }
             None => out.fail(format!("next:{}-{}-{}", y, m, d), "panic".into()),
           }
